@@ -144,7 +144,7 @@ func (g *gen) pipeScript(idx int) error {
 			}
 		}
 		if !bp {
-			stages = append(stages, "(StMerge [])")
+			stages = append(stages, "(StAfter None)", "(StMerge [])")
 		}
 		stages = append(stages, vcoq.App("StFwd", vcoq.List(seedL), "None"))
 		if kindSel <= 5 {
